@@ -221,13 +221,17 @@ def hexVal (c : Char) : Nat :=
   if '0' ≤ c && c ≤ '9' then c.toNat - 48 else if 'a' ≤ c && c ≤ 'f' then c.toNat - 87 else c.toNat - 55
 def octVal (c : Char) : Nat := c.toNat - 48
 
-def simpleEscapes : List Char := ['n', 't', 'b', 'r', 'f', 'v', 'a', '\\', '"']
+/-- the single-character escapes of `_escapes_re` (`[ntbrfva]`, `\\`, `"`) and the byte `ast.literal_eval` gives them -/
+def simpleByte (c : Char) : Option UInt8 :=
+  if c = 'n' then some 10 else if c = 't' then some 9 else if c = 'b' then some 8 else if c = 'r' then some 13
+  else if c = 'f' then some 12 else if c = 'v' then some 11 else if c = 'a' then some 7
+  else if c = '\\' then some 92 else if c = '"' then some 34 else none
 
 /-- one iteration of the group of `_escapes_re` at the head of `s` (which starts *after* the backslash):
     the characters of the escape after the backslash, and the rest.  Alternatives in the regex's order, greedy counts. -/
 def escapeBody : Text → Option (Text × Text)
   | c :: rest =>
-    if simpleEscapes.contains c then some ([c], rest)
+    if (simpleByte c).isSome then some ([c], rest)
     else if isOct c then
       match rest with
       | d :: rest' =>
@@ -264,19 +268,20 @@ def escapeRun : Nat → Text → List Text × Text
 /-- `_short_x_escape_re.sub(r'\\x0\1', s)`: inside a run every `\xH` is followed by a backslash or the end -/
 def fixShortX (body : Text) : Text :=
   match body with
-  | ['x', d] => ['x', '0', d]
+  | [c, d] => if c = 'x' then ['x', '0', d] else body
   | b => b
 
-/-- `_big_octal_escape_re.sub(_wrap_octal_escape, s)` (fix 9de4551): three octal digits above `\377` keep their low 8 bits
-    and are re-spelled with `format(…, 'o')`; what matters to `literal_eval` is the value -/
+/-- the byte `ast.literal_eval(b'\…')` gives one escape.  `_big_octal_escape_re.sub(_wrap_octal_escape, s)` (fix 9de4551):
+    three octal digits above `\377` keep their low 8 bits (re-spelled with `format(…, 'o')`: only the value matters) -/
 def escapeByte (body : Text) : UInt8 :=
   match body with
-  | ['n'] => 10 | ['t'] => 9 | ['b'] => 8 | ['r'] => 13 | ['f'] => 12 | ['v'] => 11 | ['a'] => 7
-  | ['\\'] => 92 | ['"'] => 34
-  | ['x', d, e] => UInt8.ofNat (hexVal d * 16 + hexVal e)
-  | [c] => UInt8.ofNat (octVal c)
+  | [c] => match simpleByte c with
+    | some b => b
+    | none => UInt8.ofNat (octVal c)
   | [c, d] => UInt8.ofNat (octVal c * 8 + octVal d)
-  | [c, d, e] => UInt8.ofNat ((octVal c * 64 + octVal d * 8 + octVal e) % 256)
+  | [c, d, e] =>
+    if c = 'x' then UInt8.ofNat (hexVal d * 16 + hexVal e)
+    else UInt8.ofNat ((octVal c * 64 + octVal d * 8 + octVal e) % 256)
   | _ => 0
 
 /-- the inner `unescape(match)`: bytes of the run, ASCII first, else the file's charset -/
@@ -488,26 +493,10 @@ def lookupKw (k : Text) : List (List Char × Sym) → Option Sym
 
 def bom : Char := Char.ofNat 0xFEFF
 
-/-- the body of `for line in self.fhandle` (`lineno` = `self.current_line` after the increment) -/
-def stepLine (env : Env) (enc : Bytes) (lineno : Nat) (raw : Text) (s : PState) : Except Err PState :=
-  let raw := if lineno = 1 then (match raw with | c :: r => if c = bom then r else raw | [] => raw) else raw
-  let line := strip env.isSpace raw
-  if line.isEmpty then .ok s else
-  let tokens := splitWs env.isSpace 2 line
-  match tokens with
-  | [] => .ok s          -- unreachable: `line` is non-empty and starts with a non-space
-  | t0 :: trest =>
-  if t0 == ['#', '~', '|'] then .ok { s with lastTok := some t0 } else
-  -- obsolete marker
-  let obs := t0 == ['#', '~'] && !trest.isEmpty
-  let line := if obs then strip env.isSpace (line.drop 3) else line
-  let tokens := if obs then trest else tokens
-  let s := { s with entryObsolete := obs }
-  match tokens with
-  | [] => .ok s          -- unreachable
-  | t0 :: trest =>
+/-- the part of the loop body after the `#~` handling: `line` is `self`'s local `line`, `t0 :: trest` is `tokens` -/
+def dispatch (env : Env) (enc : Bytes) (lineno : Nat) (line : Text) (t0 : Text) (trest : List Text) (s : PState) : Except Err PState :=
   let s := { s with lastTok := some t0 }
-  let nb := tokens.length
+  let nb := trest.length + 1
   match (if nb > 1 then lookupKw t0 I18n.Generated.PolibFsm.keywords else none) with
   | some sym =>
     let line := lstrip env.isSpace (line.drop t0.length)
@@ -536,6 +525,23 @@ def stepLine (env : Env) (enc : Bytes) (lineno : Nat) (raw : Text) (s : PState) 
         | none => .error (.syntax lineno (.unknownKeyword t1))
         | some sym => process env enc lineno sym (lstrip env.isSpace (line.drop t1.length)) s
   else .error (.syntax lineno .plain)
+
+/-- `line.startswith(BOM)` on the first line -/
+def dropBom (lineno : Nat) (raw : Text) : Text :=
+  if lineno = 1 then (match raw with | c :: r => if c = bom then r else raw | [] => raw) else raw
+
+/-- the body of `for line in self.fhandle` (`lineno` = `self.current_line` after the increment) -/
+def stepLine (env : Env) (enc : Bytes) (lineno : Nat) (raw : Text) (s : PState) : Except Err PState :=
+  let line := strip env.isSpace (dropBom lineno raw)
+  if line.isEmpty then .ok s else
+  match splitWs env.isSpace 2 line with
+  | [] => .ok s          -- unreachable: `line` is non-empty and starts with a non-space
+  | t0 :: trest =>
+  if t0 == ['#', '~', '|'] then .ok { s with lastTok := some t0 } else
+  -- obsolete marker: `line = line[3:].strip(); tokens = tokens[1:]`
+  match (if t0 == ['#', '~'] then trest else []) with
+  | t1 :: trest' => dispatch env enc lineno (strip env.isSpace (line.drop 3)) t1 trest' { s with entryObsolete := true }
+  | [] => dispatch env enc lineno line t0 trest { s with entryObsolete := false }
 
 def parseLoop (env : Env) (enc : Bytes) : Nat → List Text → PState → Except Err PState
   | _, [], s => .ok s
@@ -577,5 +583,17 @@ def checkerLoad (env : Env) (file : Bytes) : Except Err PoFile × Bool :=
   match load env file with
   | .error .decode => (loadWith env latin1Name file, true)
   | r => (r, false)
+
+/-! ## the interpreter's character classes as dumped by the translator (`Generated.PolibFsm`) -/
+
+def inRanges (rs : List (Nat × Nat)) (n : Nat) : Bool := rs.any fun r => r.1 ≤ n && n ≤ r.2
+
+/-- `str.isspace` of the interpreter the tool runs on -/
+def pyIsSpace (c : Char) : Bool := inRanges I18n.Generated.PolibFsm.spaceRanges c.toNat
+/-- `str.isdigit` -/
+def pyIsDigit (c : Char) : Bool := inRanges I18n.Generated.PolibFsm.digitRanges c.toNat
+/-- `int(ch)` -/
+def pyDecimal (c : Char) : Option Nat :=
+  (I18n.Generated.PolibFsm.decimalRanges.find? fun r => r.1 ≤ c.toNat && c.toNat ≤ r.2).map fun r => (c.toNat - r.1) % 10
 
 end I18n.Po
